@@ -236,6 +236,10 @@ def _c02():
                        ("enqueue_gc", "the parallelism limit drops to 1 while the enqueue is in flight", (1, 2)), ("two_arenas", "two arenas with enqueued work compete for one worker", (2, 3)),
                        ("execute_full", "task_arena::execute with no free slot (delegation + exit monitor)", (1, 2))]:
         L.append(leg("rt-" + k, "c02_rt", b, {"kind": k}, what=what, weight=2.0 if b[0] == 1 else 1.0))
+    L.append(leg("rt-execute_handover", "c02_rt", (1, 2), {"kind": "execute_handover"}, what="two threads asleep in execute() of a saturated arena; the freed slot is announced to the one whose functor was already run by the worker: it must pass the announcement on", weight=2.0))
+    for name, prm in [("addr-mutex-ba", {"kind": "mutex", "order": "ba", "unlock": "ab"}), ("addr-mutex-ab", {"kind": "mutex", "order": "ab", "unlock": "ba"}), ("addr-mutex-aa", {"kind": "mutex", "order": "ab", "unlock": "ab"}),
+                      ("addr-rw-ba", {"kind": "rw", "order": "ba", "unlock": "ab"}), ("addr-rw-ab", {"kind": "rw", "order": "ab", "unlock": "ba"}), ("addr-rw-reader", {"kind": "rw", "order": "ba", "unlock": "ab", "reader": 1})]:
+        L.append(leg(name, "c02_addr", (2, 3), prm, what="two mutexes whose addresses share one of the 2048 address-waiter buckets, one sleeper each: unlocking one must wake its own sleeper wherever it stands in the shared wait set"))
     for k in ("wait_sleep", "enqueue", "enqueue2"):
         L.append(leg("rt-%s-asleep" % k, "c02_rt", (2, 3), {"kind": k, "asleep": 1}, what="same, worker asleep when the window opens"))
     return L
